@@ -805,6 +805,7 @@ def run(tier, seed, replay=None):
         "edge-length numerals: Python float formatting/parsing is abstract (render_len/parse_len with the round-trip premise as a Section hypothesis); the harness tabulates float() per token",
         "str.lower is an uninterpreted function in the theorems; in the correspondence run it is character-wise (checked by the harness on every string)",
         "NEXUS layer: coq/Model/C02Nexus.v models documents of the shape NexusWriter produces for one tree list over one namespace (TITLE/LINK/CHARACTERS/SETS statements give NUnmodelled); accession_index = position",
+        "metadata: coq/Model/C02Meta.v (weights, item comments, annotation comments of NewickWriter / NewickReader._process_tree_comments / process_comments_for_item) and C02MetaAnn.v (parse_comment_metadata_to_annotations: backtracking semantics of the two regular expressions) are hand transcriptions tied by the metadata correspondence stage (exact text, exact read result incl. annotations up to permutation); float() per weight part and float division are tabulated by the harness; the generated facts of coq/Gen/NewickMeta.v are proved equal to the model's",
         "NeXML: coq/Model/C02Nexml.v models writer and reader at element level (otu/node/edge/rootedge records, id maps, root attribute); the XML text layer (xml library, quoteattr, id rendering, float text) is trusted: the harness parses the written text with ElementTree into the records",
     ]
     if replay:
@@ -815,7 +816,7 @@ def run(tier, seed, replay=None):
         if case["kind"] == "roundtrip":
             print("written:", repr(obs["written"]))
         return 0
-    ok = core.proof_stage(ctx, ["Props/C02.vo"], gen_needed=("CharClasses", "NewickGen"))
+    ok = core.proof_stage(ctx, ["Props/C02.vo"], gen_needed=("CharClasses", "NewickGen", "NewickMeta"))
     if not ok:
         core.broken_proof(ctx, search)
     n = 500 if tier == "quick" else 8000
@@ -858,6 +859,21 @@ def run(tier, seed, replay=None):
     core.corr_stage(ctx, xcases, c02_nexml.observe, c02_nexml.to_coq, c02_nexml.HEADER, "xcase_ok", oracle=c02_nexml.oracle,
                     show_fn="xcase_show", nontrivial=c02_nexml.nontrivial, search=search, shard=250,
                     label="xmlelement correspondence", sample_fn=c02_nexml.sample_fn)
+    # metadata: rooting state, tree weights, annotations, comments: Model/C02Meta.v + C02MetaAnn.v vs NewickWriter/NewickReader
+    from dv import c02_meta
+    mcases = list(c02_meta.witness_cases())
+    mcases += [c02_meta.gen_case(ctx.rng, maxleaves) for _ in range(250 if tier == "quick" else 4000)]
+    for c in mcases:
+        ctx.count("meta:" + c["kind"])
+        if c["kind"] == "meta":
+            for k in ("store_tree_weights", "suppress_item_comments", "suppress_annotations"):
+                if k in c["wkw"]:
+                    ctx.count("meta:w:" + k)
+            ctx.count("meta:extract" if c["r_extract"] else "meta:no-extract")
+            ctx.count("meta:safe-texts" if c.get("safe") else "meta:tricky-texts")
+    core.corr_stage(ctx, mcases, c02_meta.observe, c02_meta.to_coq, c02_meta.HEADER, "mcase_ok", oracle=c02_meta.oracle,
+                    show_fn="mcase_show", nontrivial=c02_meta.nontrivial, search=search, shard=250,
+                    label="metadata correspondence", sample_fn=c02_meta.sample_fn)
     return ctx.finish(
         level="proof",
         rule="random rose trees (1-8 leaves quick / 1-20 thorough, unifurcations, single nodes, 1-3 trees per list) x labels biased to "
@@ -865,4 +881,9 @@ def run(tier, seed, replay=None):
              "True/False/None; option pairs (default), (unquoted_underscores+preserve_underscores), preserve_spaces, both; thorough adds every "
              "ordered shape with <=5 leaves x 3 rooting/option settings with fixed tricky labels; 30% reader-only "
              "texts (token soup, grammar with blanks/comments, perturbed statements); fixed witness cases. Non-trivial: >=3 nodes and a "
-             "label with a special or non-ASCII character (round trip), text of >=4 characters (reader-only); distinct by content")
+             "label with a special or non-ASCII character (round trip), text of >=4 characters (reader-only); distinct by content. "
+             "Metadata stage: the same trees decorated with weights (None / floats / ints / Fractions), tree, node and edge comments and annotations "
+             "(str / int / bool / lists; 70% from a safe alphabet, 30% with & = , { } \" : / [ ] quotes, rooting- and weight-like texts), writer options "
+             "store_tree_weights / suppress_item_comments / suppress_annotations, reader store_tree_weights (10% mismatched) and extract_comment_metadata; "
+             "30% reader-only texts full of weight / rooting / metadata-like comments (FigTree and NHX forms); fixed probes incl. the _refuted witnesses and 48 "
+             "single-node trees under the enumerated options; non-trivial: >=2 nodes and some weight/comment/annotation")
